@@ -62,6 +62,7 @@ type Gen struct {
 	consts    []*Var
 	ovr       []*Var
 	helpers   []*Func
+	nest      bool    // control-nesting profile (see genStmts)
 	wideSig   []*Type // parameter types of the last wide-signature helper
 	wideRet   *Type
 	calledFns map[*Func]int // how often each helper has been called so far
